@@ -176,5 +176,29 @@ CHECKS['C08'] = dict(
          'ones. The 1e-5 agreement with closed forms, space additivity and pointwise evaluation are NOT decided.',
     design_ref='3.15', technique='symbolic execution of src/initial_potential.py (E1 uninterpreted) + identities on canonical forms; ground rational rule checks',
     note='quad_int = 1 for the symbolic part; segment levels <= 2 (quick) / 4 (thorough).')
+# -- additions made while strengthening the checks against the seeded changes -----------------------------------
+CHECKS['C02']['text'] += (' A QF_FP lemma on the real __bisect_edge: the midpoint vertex is independent of the edge '
+                          'orientation in IEEE double arithmetic (thorough: and lies within the edge).')
+CHECKS['C03']['text'] += (' (M) the real residual fed with the shipped problems\' own M0u0 / g evaluates and equals '
+                          'V Phi + M0u0 - g (symbolic time where the closed form is real-valued).')
+CHECKS['C04']['text'] += (' bilform is exercised on the quadrature path and, for same-side pairs in both parameter '
+                          'orders, on the closed-form path with the real closed forms.')
+CHECKS['C05']['text'] += (' Every returning lookup path must yield the table entry written for that key, and lookups '
+                          'requested one after the other, in file order and in reverse, must each return their own arm.')
+CHECKS['C07']['text'] += (' (H) the same specification after a register / bisect / register history on a real mesh: the '
+                          'pre-tabulated curve points must be those of the child.')
+CHECKS['C09']['text'] += (' The pool path (in-order stand-in) must equal the serial result for a second residual on the '
+                          'same estimator and element list; two-step directed histories give stacked neighbours of unequal size.')
+CHECKS['C14']['text'] += (' Exactness is also decided on the shifted polynomial over [7, 7 + 1/900], the short end of the '
+                          'property\'s interval range.')
+CHECKS['C15']['text'] += (' Every mirror of one scheme object reflects exactly its own coordinate, in any request order '
+                          'and in composition (x then y, y then x, twice the same).')
+CHECKS['C16']['text'] += (' End points carry a symbolic rounding perturbation (|delta| <= 1e-15 unit) at three segment '
+                          'levels; lookups are interleaved with refinements and a second targeted refinement runs on the same mesh.')
+CHECKS['C17']['text'] += (' Real mesh elements differing in the 13th digit and another problem on the same elements must '
+                          'not share a cache entry either.')
+CHECKS['C19']['text'] += (' Besides free histories: point-directed histories (<= 4 space + <= 6 time bisections at a '
+                          'corner of a root cell) and two gradings with different exponents on one mesh object.')
+
 NA['C13'] = ('an eigenvalue bound on a matrix whose entries are quadratures of Ei/exp: no fragment of it is a '
              'statement an SMT solver can decide about the real code (DESIGN 3.20)')
